@@ -13,6 +13,12 @@ Fixpoint eqb_zs (a b : list Z) : bool :=
 Definition eqb_ns (a : list nat) (b : list Z) : bool := eqb_zs (map Z.of_nat a) b.
 Definition eqb_oz (a b : option Z) : bool :=
   match a, b with None, None => true | Some x, Some y => Z.eqb x y | _, _ => false end.
+Fixpoint eqb_ozs (a b : list (option Z)) : bool :=
+  match a, b with
+  | [], [] => true
+  | x :: a', y :: b' => eqb_oz x y && eqb_ozs a' b'
+  | _, _ => false
+  end.
 Fixpoint all2 {A B} (f : A -> B -> bool) (a : list A) (b : list B) : bool :=
   match a, b with
   | [], [] => true
@@ -27,13 +33,13 @@ Definition err_code (e : option err) : nat :=
 Definition agree_log (log : list (option err * (vocab * vocab))) (obs : list (nat * (list Z * list Z))) : bool :=
   all2 (fun l o => Nat.eqb (err_code (fst l)) (fst o) && eqb_zs (fst (snd l)) (fst (snd o)) && eqb_zs (snd (snd l)) (snd (snd o))) log obs.
 
-Definition orow : Type := Z * Z * list Z.
-Definition shown (d : dataset) (a : attrs) : attrs := if d_cols d then a else [].
+Definition orow : Type := Z * Z * list (option Z).        (* None: the view shows null / NaN / NaT *)
+Definition shown (d : dataset) (a : attrs) : attrs := select (d_cols d) a.   (* the columns the table carries *)
 
 Definition eqb_rec (d : dataset) (r : rec) (o : orow) : bool :=
-  Z.eqb (Z.of_nat (r_u r)) (fst (fst o)) && Z.eqb (Z.of_nat (r_i r)) (snd (fst o)) && eqb_zs (shown d (r_a r)) (snd o).
+  Z.eqb (Z.of_nat (r_u r)) (fst (fst o)) && Z.eqb (Z.of_nat (r_i r)) (snd (fst o)) && eqb_ozs (shown d (r_a r)) (snd o).
 Definition eqb_irow (d : dataset) (r : irow) (o : orow) : bool :=
-  Z.eqb (fst (fst r)) (fst (fst o)) && Z.eqb (snd (fst r)) (snd (fst o)) && eqb_zs (shown d (snd r)) (snd o).
+  Z.eqb (fst (fst r)) (fst (fst o)) && Z.eqb (snd (fst r)) (snd (fst o)) && eqb_ozs (shown d (snd r)) (snd o).
 
 (* one statistics row as observed: record_count, <other>_count, count, rating part, time part *)
 Definition ostat : Type := Z * Z * Z * option (Z * option Q) * option (option Z * option Z).
@@ -43,17 +49,17 @@ Definition agree_stat (s : schema) (d : dataset) (m : stat_row) (o : ostat) : bo
   Z.eqb (Z.of_nat (st_records m)) recs && Z.eqb (Z.of_nat (st_other m)) other && Z.eqb (Z.of_nat (st_records m)) cnt &&
   match rpart with
   | Some (rc, mean) =>
-      d_cols d && s_rating s && Z.eqb (Z.of_nat (st_records m)) rc &&
+      has_rating s (d_cols d) && Z.eqb (Z.of_nat (st_ratings m)) rc &&       (* counts the ratings that exist *)
       match mean with
-      | None => Nat.eqb (st_records m) 0
-      | Some q => negb (Nat.eqb (st_records m) 0) &&
-                  close tol64 q (inject_Z (st_rating_sum2 m) / inject_Z (2 * Z.of_nat (st_records m)))
+      | None => Nat.eqb (st_ratings m) 0
+      | Some q => negb (Nat.eqb (st_ratings m) 0) &&
+                  close tol64 q (inject_Z (st_rating_sum2 m) / inject_Z (2 * Z.of_nat (st_ratings m)))
       end
-  | None => negb (d_cols d && s_rating s)
+  | None => negb (has_rating s (d_cols d))
   end &&
   match tpart with
-  | Some (f, l) => d_cols d && s_ts s && eqb_oz (st_first m) f && eqb_oz (st_last m) l
-  | None => negb (d_cols d && s_ts s)
+  | Some (f, l) => has_ts s (d_cols d) && eqb_oz (st_first m) f && eqb_oz (st_last m) l
+  | None => negb (has_ts s (d_cols d))
   end.
 
 Inductive vobs :=
@@ -61,8 +67,8 @@ Inductive vobs :=
   | OItems (ids : list Z)
   | OTable (rows : list orow)                              (* by numbers, all attribute columns *)
   | OTableIds (rows : list orow)                           (* with original ids *)
-  | OCsr (f : field) (ptrs cols vals : list Z) (nrows ncols : Z)
-  | OCoo (f : field) (rows cols vals : list Z) (nrows ncols : Z)
+  | OCsr (f : field) (ptrs cols : list Z) (vals : list (option Z)) (nrows ncols : Z)
+  | OCoo (f : field) (rows cols : list Z) (vals : list (option Z)) (nrows ncols : Z)
   | ONnz (n : Z)
   | OUserRow (u : Z) (row : option (list orow))            (* (item id, item number, attrs) *)
   | OUserRowNum (n : Z) (row : list orow)
@@ -76,7 +82,7 @@ Definition num_z (v : vocab) (t : Z) : Z := match index_of t v with Some n => Z.
 
 Definition agree_row (d : dataset) (row : list (nat * attrs)) (o : list orow) : bool :=
   all2 (fun ia (x : orow) => Z.eqb (term (d_items d) (fst ia)) (fst (fst x)) && Z.eqb (Z.of_nat (fst ia)) (snd (fst x))
-                             && eqb_zs (shown d (snd ia)) (snd x)) row o.
+                             && eqb_ozs (shown d (snd ia)) (snd x)) row o.
 
 Definition agree_view (s : schema) (d : dataset) (v : vobs) : bool :=
   match v with
@@ -86,10 +92,10 @@ Definition agree_view (s : schema) (d : dataset) (v : vobs) : bool :=
   | OTableIds rows => all2 (eqb_irow d) (view_table_ids d) rows
   | OCsr f ptrs cols vals nr nc =>
       let '(p, c, x) := view_csr d f in
-      eqb_ns p ptrs && eqb_ns c cols && eqb_zs x vals && Z.eqb (Z.of_nat (length (d_users d))) nr && Z.eqb (Z.of_nat (length (d_items d))) nc
+      eqb_ns p ptrs && eqb_ns c cols && eqb_ozs x vals && Z.eqb (Z.of_nat (length (d_users d))) nr && Z.eqb (Z.of_nat (length (d_items d))) nc
   | OCoo f rows cols vals nr nc =>
       let '(r, c, x) := view_coo d f in
-      eqb_ns r rows && eqb_ns c cols && eqb_zs x vals && Z.eqb (Z.of_nat (length (d_users d))) nr && Z.eqb (Z.of_nat (length (d_items d))) nc
+      eqb_ns r rows && eqb_ns c cols && eqb_ozs x vals && Z.eqb (Z.of_nat (length (d_users d))) nr && Z.eqb (Z.of_nat (length (d_items d))) nc
   | ONnz n => Z.eqb (Z.of_nat (view_nnz d)) n
   | OUserRow u row =>
       match view_user_row d u, row with
